@@ -17,6 +17,30 @@ var c13CatalogCopy = map[string]string{
 }
 
 func c13(c *Ctx) {
+	// BEGIN reuses the implicit transaction it is executed in only if that transaction has done nothing yet: whatever was
+	// executed before BEGIN (rows written OR catalog changes) is not part of the transaction being opened and must not be
+	// undone by its ROLLBACK. RequireExplicitClose succeeds only past a test of every "something was done" indicator.
+	if f := c.mustFn("C13.1/begin-reuses-only-an-untouched-tx", sqlTxT+"RequireExplicitClose"); f != nil {
+		r := "C13.1/begin-reuses-only-an-untouched-tx"
+		for _, ind := range []string{"updatedRows", "mutatedCatalog"} {
+			ind := ind
+			tested := func(in ssa.Instruction) bool {
+				x, ok := in.(*ssa.If)
+				if !ok {
+					return false
+				}
+				for _, leaf := range boolLeaves(x.Cond) {
+					if strings.Contains(desc(leaf), "."+ind) {
+						return true
+					}
+				}
+				return false
+			}
+			q := &pathQ{fn: f, fromEntry: true, to: successReturn, via: tested}
+			c.check(q.bypass() == nil, r, fnName(f)+":tests:"+ind, c.pos(f.Pos()), "success only past a test of "+ind,
+				"BEGIN turns the current implicit transaction into the explicit one without looking at "+ind+": statements executed before BEGIN become part of the transaction and are undone by its ROLLBACK")
+		}
+	}
 	c13EngineStateAtCommit(c, "C13.8/statements-write-no-engine-wide-state")
 	// a transaction takes its catalog at NewTx and its data snapshots lazily: what keeps the two consistent is the
 	// mandatory-MVCC floor (the last catalog-changing tx), applied to EVERY snapshot a transaction takes, read-only or
